@@ -352,3 +352,38 @@ for _s in FIT_SRC:
         if _s[0] * _s[1] == _d[0] * _d[1] and _s != _d:
             continue                                  # KF-C05-1: equal counts, different shapes
         _fit_contract(_s, _d)
+
+
+# a result WITHOUT axes (what an operator or an element-wise function returns for scalar operands: a 0-d Array) fills the destination
+class _Array0dT(TypeGen):
+    def make(self, ctx, name):
+        import numpy as np
+        from formulas.functions import Array
+        out = np.empty((), object)
+        out[()] = OpaqueT().make(ctx, name + '.item')
+        return out.view(Array)
+
+
+def _fit0d_contract(dst):
+    c = Contract(lambda: lemma_fit, dict(value=_Array0dT(), shape=ConstT(dst)), 'C05',
+                 name='Array.reshape[0-d into %dx%d]' % dst, use=[])
+    CONTRACTS.append(c)
+
+    @c.ensures('a-result-without-axes-fills-the-destination', 'P')
+    def _(value, shape, result):
+        if result.shape != tuple(shape):
+            return False
+        ok = True
+        for i in range(shape[0]):
+            for j in range(shape[1]):
+                ok = ok and same_object(result[i, j], value[()])
+        return ok
+
+    @c.canary('canary:nothing-but-NA')
+    def _(value, shape, result):
+        return all(result[i, j] is _NA for i in range(shape[0]) for j in range(shape[1]))
+    return c
+
+
+for _d in FIT_DST:
+    _fit0d_contract(_d)
